@@ -21,14 +21,15 @@ DEF DELETION_SCORE = -2
 
 # structure for a DP matrix entry
 ctypedef struct _Entry:
-    int cost
+    # 64 bit: the cost of a disabled indel (100000) times the reference length can exceed 2^31
+    long long cost
     int score    # score for this alignment (mostly keeps track of matches)
     int origin   # where the alignment originated: negative for positions within seq1, positive for pos. within seq2
 
 
 ctypedef struct _Match:
     int origin
-    int cost
+    long long cost
     int score
     int ref_stop
     int query_stop
@@ -364,22 +365,22 @@ cdef class Aligner:
         if not self.start_in_reference and not self.start_in_query:
             for i in range(m + 1):
                 column[i].score = i * self._deletion_score
-                column[i].cost = max(i, min_n) * self._deletion_cost
+                column[i].cost = <long long>max(i, min_n) * self._deletion_cost
                 column[i].origin = 0
         elif self.start_in_reference and not self.start_in_query:
             for i in range(m + 1):
                 column[i].score = 0
-                column[i].cost = min_n * self._deletion_cost
+                column[i].cost = <long long>min_n * self._deletion_cost
                 column[i].origin = min(0, min_n - i)
         elif not self.start_in_reference and self.start_in_query:
             for i in range(m + 1):
                 column[i].score = i * self._deletion_score
-                column[i].cost = i * self._deletion_cost
+                column[i].cost = <long long>i * self._deletion_cost
                 column[i].origin = max(0, min_n - i)
         else:
             for i in range(m + 1):
                 column[i].score = 0
-                column[i].cost = min(i, min_n) * self._deletion_cost
+                column[i].cost = <long long>min(i, min_n) * self._deletion_cost
                 column[i].origin = min_n - i
 
         if self.debug:
@@ -401,10 +402,11 @@ cdef class Aligner:
             last = m
 
         cdef:
-            int cost_diag
-            int cost_deletion
-            int cost_insertion
-            int origin, cost, score
+            long long cost_diag
+            long long cost_deletion
+            long long cost_insertion
+            long long cost
+            int origin, score
             int length
             int ref_start
             int cur_effective_length
